@@ -1005,34 +1005,15 @@ func runC11(c *core.Ctx) {
 	c.Clause("C11.writers", func() {
 		n := c11Writers(c,
 			[]string{c11FVValues, c11FVCache, c11FIndexes, c11FWeights, c11FIDs, c11FTotal},
-			[]string{c11V, c11Cache}, c11ValidatorOwners)
+			[]string{c11V, c11Cache}, c11ValidatorOwnersOf(c.P))
 		c.ExpectAtLeast("writers of Validators/cache state", n, c11MinValidatorWriters)
 	})
 	c11Clause(c, "C11.writers", func(c *core.Ctx) {
 		// newValidators: cache is assigned from calcCaches() of the object under construction
 		nv := c11Fn(c, c11Pkg+".newValidators")
-		as := assignsToField(nv, c11FVCache)
-		okC := len(as) == 1
-		if okC {
-			root, _ := fieldPath(nv, as[0].LHS)
-			call := isCallTo(nv, as[0].RHS, c11V+".calcCaches")
-			okC = call != nil && varOf(nv, root) != nil
-			if okC {
-				sel, _ := ast.Unparen(call.Fun).(*ast.SelectorExpr)
-				okC = sel != nil && varOf(nv, sel.X) == varOf(nv, root)
-			}
-			if okC {
-				for _, rp := range nv.ReturnPoints() {
-					if ok, _ := nv.MustPassBefore([]core.Point{as[0].Pt}, rp); !ok {
-						okC = false
-					}
-					r := rp.Node().(*ast.ReturnStmt)
-					if len(r.Results) != 1 || varOf(nv, r.Results[0]) != varOf(nv, root) {
-						okC = false
-					}
-				}
-			}
-		}
+		// (x.cache = x.calcCaches() before every return of x, or the same fact under any spelling of the
+		// construction and of calcCaches: c11_anchor.go)
+		okC, _ := c12CacheBound(nv)
 		c.Check(okC, "newValidators sets cache = calcCaches()", "T2 Dominates", nv.Pos(),
 			"the returned object's cache is calcCaches() of that same object on every path", "a Validators object can be returned whose cache was not computed (and bound-checked) from its own values")
 	})
@@ -1426,6 +1407,12 @@ func c11FreshLocal(f *core.FuncInfo, v *types.Var) bool {
 					ok = false
 				}
 			case *ast.StarExpr, *ast.ReturnStmt:
+			case *ast.CallExpr:
+				// handed to the function that computes the caches (calcCaches written as a function over the
+				// object): it reads the object; a store through its parameter is reported by the who-may-write rule
+				if nm := c11ActualName(f.P, c11CalcAnchor); nm == "" || calleeName(f, p) != nm || ast.Unparen(p.Fun) == ast.Expr(id) {
+					ok = false
+				}
 			case *ast.AssignStmt:
 				isLHS := false
 				for _, l := range p.Lhs {
